@@ -67,6 +67,7 @@ type syncObj struct {
 	count   int64
 	val     Value
 	gen     int64 // sync.Cond generation
+	items   []Value // sync.Pool: objects put back and not yet handed out again
 }
 
 type fsNode struct{}
@@ -741,8 +742,15 @@ func init() {
 	})
 	reg("(*sync.Cond).Signal", func(fr *frame, args []Value) Value { fr.it.syncOf(args[0]).gen++; fr.it.yield(fr); return nil })
 	reg("(*sync.Cond).Broadcast", func(fr *frame, args []Value) Value { fr.it.syncOf(args[0]).gen++; fr.it.yield(fr); return nil })
+	// sync.Pool hands an object that was put back to the next Get (most recent first): the reuse
+	// pattern that makes use-after-Put and missing-reset mistakes visible; New is used when empty.
 	reg("(*sync.Pool).Get", func(fr *frame, args []Value) Value {
 		p := args[0].(*Value)
+		if o := fr.it.syncOf(args[0]); len(o.items) > 0 {
+			x := o.items[len(o.items)-1]
+			o.items = o.items[:len(o.items)-1]
+			return x
+		}
 		st := (*p).(Struct)
 		newFn := st[len(st)-1]
 		if n, _ := isNilValue(newFn); n {
@@ -750,7 +758,16 @@ func init() {
 		}
 		return fr.it.call(fr, nil, newFn, nil)
 	})
-	reg("(*sync.Pool).Put", func(fr *frame, args []Value) Value { return nil })
+	reg("(*sync.Pool).Put", func(fr *frame, args []Value) Value {
+		if ifc, ok := args[1].(Iface); ok {
+			if n, _ := isNilValue(ifc); n {
+				return nil
+			}
+		}
+		o := fr.it.syncOf(args[0])
+		o.items = append(o.items, args[1])
+		return nil
+	})
 
 	// ---- sync/atomic ----
 	for _, ty := range []string{"Int32", "Int64", "Uint32", "Uint64", "Uintptr", "Pointer"} {
